@@ -37,6 +37,8 @@ type Harness struct {
 	Note        string            `json:"note,omitempty"`
 	Rel         string            `json:"rel,omitempty"` // relational partner harness name
 	TimeoutMs   int               `json:"timeout_ms,omitempty"`
+	TimeCapS    int               `json:"timecap_s,omitempty"`
+	ConcreteMake bool             `json:"concrete_make,omitempty"`
 }
 
 type Engine struct {
@@ -51,7 +53,8 @@ type Engine struct {
 	redirC   map[string]*ssa.Function
 	fnHash   map[string]string
 
-	workersPerHarness int
+	maxWorkers int
+	tokens     chan struct{}
 }
 
 // defaultRedirects send library entry points to implementations in the harness
@@ -284,6 +287,9 @@ func (g *Engine) runHarness(h *Harness, solverKind string, timeoutMs int) (res *
 	if h.MaxPaths == 0 {
 		h.MaxPaths = 20000
 	}
+	if h.TimeCapS == 0 {
+		h.TimeCapS = 900
+	}
 	if h.TimeoutMs > 0 {
 		timeoutMs = h.TimeoutMs
 	}
@@ -304,10 +310,8 @@ func (g *Engine) runHarness(h *Harness, solverKind string, timeoutMs int) (res *
 	cond := sync.NewCond(&mu)
 	queue := [][]decision{{}}
 	idle, nPaths, done := 0, 0, false
-	nWorkers := g.workersPerHarness
-	if nWorkers < 1 {
-		nWorkers = 1
-	}
+	nWorkers, nSpawned := 1, 1
+	var spawn func(w int)
 	vioSeen := map[string]bool{}
 	take := func() ([]decision, bool) {
 		mu.Lock()
@@ -397,10 +401,16 @@ func (g *Engine) runHarness(h *Harness, solverKind string, timeoutMs int) (res *
 				mu.Lock()
 				nPaths++
 				over := nPaths > h.MaxPaths
+				why := fmt.Sprintf("path cap %d reached", h.MaxPaths)
+				if h.TimeCapS > 0 && time.Since(t0) > time.Duration(h.TimeCapS)*time.Second {
+					over, why = true, fmt.Sprintf("time cap %ds reached after %d paths", h.TimeCapS, nPaths)
+				}
 				mu.Unlock()
 				if over {
 					mu.Lock()
-					res.Problems = append(res.Problems, fmt.Sprintf("path cap %d reached", h.MaxPaths))
+					if !done {
+						res.Problems = append(res.Problems, why)
+					}
 					done = true
 					queue = nil
 					cond.Broadcast()
@@ -423,7 +433,7 @@ func (g *Engine) runHarness(h *Harness, solverKind string, timeoutMs int) (res *
 						fmt.Fprintf(os.Stderr, "[%s/%d] path: %s %s (%d steps, %d decisions)\n", h.Name, wid, pr.Status, pr.Msg, pr.Steps, len(e.decisions))
 					}
 				}()
-				// feed idle workers
+				// feed idle workers; recruit another worker when a core is free
 				mu.Lock()
 				for idle > len(queue) {
 					d := e.donate()
@@ -432,6 +442,20 @@ func (g *Engine) runHarness(h *Harness, solverKind string, timeoutMs int) (res *
 					}
 					queue = append(queue, d)
 					cond.Signal()
+				}
+				if !done && nSpawned < g.maxWorkers && len(local) >= 4 {
+					select {
+					case <-g.tokens:
+						if d := e.donate(); d != nil {
+							queue = append(queue, d)
+							nSpawned++
+							nWorkers++
+							spawn(nSpawned - 1)
+						} else {
+							g.tokens <- struct{}{}
+						}
+					default:
+					}
 				}
 				mu.Unlock()
 				if !e.nextPrefix() {
@@ -488,13 +512,17 @@ func (g *Engine) runHarness(h *Harness, solverKind string, timeoutMs int) (res *
 			res.Problems = append(res.Problems, "solver error: "+er)
 		}
 	}
+	// Workers are added on demand: a harness starts with one; whenever a core
+	// token is free (other harnesses finished or are small) and this harness still
+	// has unexplored alternatives, another worker joins.
 	var wg sync.WaitGroup
-	for w := 0; w < nWorkers; w++ {
+	spawn = func(w int) {
 		wg.Add(1)
-		go func(w int) {
+		go func() {
 			defer wg.Done()
 			worker(w)
-			// a worker that leaves early (init failure) must not block the others
+			g.tokens <- struct{}{}
+			// a worker that leaves must not block the others
 			mu.Lock()
 			nWorkers--
 			if idle >= nWorkers {
@@ -502,8 +530,11 @@ func (g *Engine) runHarness(h *Harness, solverKind string, timeoutMs int) (res *
 			}
 			cond.Broadcast()
 			mu.Unlock()
-		}(w)
+		}()
 	}
+	<-g.tokens
+	nWorkers = 1
+	spawn(0)
 	wg.Wait()
 	for _, t := range h.Reach {
 		if res.Reached[t] == 0 {
